@@ -246,6 +246,7 @@ def C10(ctx):
     G.prepare(ctx, f, {"blank", "format", "masks", "place"})
     d_enc = G.c06_r2(ctx, f)
     d_il = G.c02_r4(ctx, f)
+    d_div = Gp.c07_r4(ctx, f)
     d_blank = G.c03_r3(ctx, f)
     d_place = G.c01_r5(ctx, f)
     d_fmt = G.c04_r3(ctx, f)
@@ -261,6 +262,9 @@ def C10(ctx):
         ev["placement::place_on_matrix_data"] = "C01.R5"
     if d_il:
         ev["polynomials::structure"] = "C02.R4"
+    if d_div:
+        # every bounds / overflow assert of the division was decided with the block bytes free (none assumed), for every block length
+        ev["polynomials::division"] = "C07.R4 (every block content)"
     if d_enc:
         # the encoders were evaluated with a symbolic payload for every length residue and both ends of the capacities: a panic
         # that depends on a payload value stops that evaluation (no verdict), one that depends on the length class is met
@@ -281,6 +285,11 @@ def C10(ctx):
                     "Decided are the mechanisms the property is anchored in: the capacity gate dominates all encoding work and its "
                     "thresholds never admit more than capacity (all lengths); every fixed-size buffer is large enough for every "
                     "configuration; only the documented errors exist; the classifier never admits a byte its encoder panics on. "
+                    "Decided by evaluation, with every compiler-inserted bounds/overflow assert resolved: the configuration-determined "
+                    "stages (blank symbol, format writer, placement, mask sweeps, interleaving) for every configuration and every "
+                    "payload; the GF division for every block content of every block length in use (C07.R4); the encoders on the "
+                    "evaluated (mode, version, level, length) cells, including the capacity of every level of V40 and lengths around "
+                    "2^8..2^12 (C06.R2). Not decided: the encoders at other lengths, the scorers on arbitrary symbols. "
                     "Evidence lists the explicit panic sites reachable from build and the assert inventory (no verdict).",
     )
 
